@@ -4,7 +4,7 @@ from onl.sim import Environment
 from onl.netdev import Port, PortMonitor
 from onl.netdev.red_port import REDPort
 import onl.netdev.red_port as red_mod
-from harness.fifo import FifoRun, source, INF
+from harness.fifo import FifoRun, source, run_many, INF
 from vlib.util import bits, run_driver, split_cases, quiet
 
 ASSUMPTIONS = [
@@ -84,9 +84,9 @@ def snap_port(run):
             f'avg={bits(getattr(p, "average_queue_size", 0))} st={run.stamps}')
 
 
-def gen_case(rng, cid):
+def gen_case(rng, cid, mode=None):
     rate = rng.choice([0.0, 8.0, 8.0, 64.0, 3.0, 100.0, 8, 1e6])
-    mode = rng.choice(['none', 'bytes', 'packets', 'packets', 'red'])
+    mode = mode or rng.choice(['none', 'bytes', 'packets', 'packets', 'red'])
     c = {'cid': str(cid), 'rate': rate, 'mode': mode, 'hasid': rng.random() < 0.8}
     if mode == 'bytes':
         c['qlimit'] = rng.choice([0, 60, 100, 150, 400, 3000])
@@ -136,6 +136,46 @@ def gen_case(rng, cid):
     return c
 
 
+ASSUMPTIONS.append('peer ports: in about half of the cases one or two further Port / REDPort instances (other rate / qlimit / limit mode / thresholds, an '
+                   'element_id equal to or different from the first one\'s, own sources whose packet ids may collide with the first one\'s, often a '
+                   'PortMonitor of their own) live and carry traffic in the same Environment; every instance is replayed through the model as a case of '
+                   'its own and judged by the oracles on its own history only')
+
+CONFIG_KEYS = ('rate', 'mode', 'hasid', 'qlimit', 'limit_bytes', 'min_th', 'max_th', 'max_p', 'w', 'fill')
+
+
+def gen_group(rng, cid):
+    """the port under test and, in about half of the cases, one or two PEER ports of the same class alive in the same
+    Environment: "the k-th accepted packet leaves a Port at ...", "the bytes held", "packets_received", "stamped under the
+    port's element id" all speak of ONE port - whatever other ports (with the same element id or another) do next to it."""
+    c = gen_case(rng, cid)
+    if rng.random() < 0.5:
+        return c
+    red = c['mode'] == 'red'
+    c['peers'] = []
+    for j in range(rng.choice([1, 1, 2])):
+        x = rng.random()
+        if x < 0.2:
+            # a twin built from an equal configuration (its own traffic)
+            p = gen_case(rng, f'{cid}.p{j + 1}', c['mode'])
+            for k in CONFIG_KEYS:
+                p.pop(k, None)
+                if k in c:
+                    p[k] = c[k]
+            p['twin'] = True
+        else:
+            p = gen_case(rng, f'{cid}.p{j + 1}', ('red' if rng.random() < 0.7 else None) if red else rng.choice(['none', 'bytes', 'packets', 'packets']))
+        # element ids: equal to the first port's in half of the cases ('p1' is what every port under test is called)
+        p['eid'] = rng.choice(['p1', 'p1', 'p2', ''])
+        p['hasid'] = bool(p['eid'])
+        p['shared_ids'] = rng.random() < 0.4        # packet ids drawn from the first port's counter (unique in the Environment) or its own (colliding)
+        if p['monitor'] is None and rng.random() < 0.5:
+            p['monitor'] = {'included': rng.random() < 0.5, 'period': rng.choice([0.5, 1, 3, 7.25])}
+        c['peers'].append(p)
+    c['peers_first'] = rng.random() < 0.3           # the peers are constructed before the port under test
+    return c
+
+
 def header(c):
     ql = 'None' if c['mode'] == 'none' else str(c['qlimit'])
     lb = 1 if (c['mode'] == 'bytes' or c.get('limit_bytes')) else 0
@@ -145,22 +185,18 @@ def header(c):
     return h
 
 
-def run_impl(c):
-    env = Environment()
-    eid = 'p1' if c['hasid'] else ''
-    draws = None
+def build(env, c, draws, counter):
+    """one port of the case (or of its group) with its sources, ledger and monitor in `env`; returns its FifoRun (not yet run)"""
+    eid = c['eid'] if 'eid' in c else ('p1' if c['hasid'] else '')
     if c['mode'] == 'red':
-        draws = Draws(random.Random(c['rseed']))
         port = REDPort(env, c['rate'], c['max_th'], c['min_th'], c['max_p'], eid, c['qlimit'],
                        weight_factor=c['w'], limit_bytes=c.get('limit_bytes', False))
     else:
         port = Port(env, c['rate'], None if c['mode'] == 'none' else c['qlimit'], c['mode'] == 'bytes', eid)
-    run = FifoRun(env, port, snap_port, draws)
+    run = FifoRun(env, port, snap_port, draws if c['mode'] == 'red' else None)
     run.ledger = Ledger(run)
-    counter = [0]
     for script in c['sources']:
         env.process(source(env, run, script, [0] if c.get('own_ids') else counter, 3))
-    horizon = [0]
     if c['monitor']:
         n = [0]
         def dist():
@@ -169,17 +205,61 @@ def run_impl(c):
         mon = PortMonitor(env, port, dist, c['monitor']['included'])
         env.process(mon.run())
         run.add_monitor(mon, c['monitor']['included'])
+    run.raised = None
+    run.peers = []
+    return run
+
+
+def run_impl(c):
+    """build the port of case `c` - and the peer ports of its group, if any, in the same Environment - run to exhaustion;
+    returns the FifoRun of the port under test (the peers' runs in `.peers`)"""
+    env = Environment()
+    peers = c.get('peers') or []
+    draws = None
+    if c['mode'] == 'red' or any(p['mode'] == 'red' for p in peers):
+        # one recorder for the group: a draw belongs to the port whose put() consumed it (puts do not nest)
+        draws = Draws(random.Random(c.get('rseed', 12345)))
+    counter = [0]
+    built = []
+    if c.get('peers_first'):
+        built = [build(env, p, draws, counter if p.get('shared_ids') else [0]) for p in peers]
+    run = build(env, c, draws, counter)
+    if not c.get('peers_first'):
+        built = [build(env, p, draws, counter if p.get('shared_ids') else [0]) for p in peers]
+    run.peers = built
     old = red_mod.random
     if draws is not None:
         red_mod.random = draws
-    run.raised = None
     try:
-        run.run()
+        run_many(env, [run] + built)
     except BaseException as x:      # the property says the run never raises
         run.raised = f'{type(x).__name__}: {x}'
+        for r in built:
+            r.raised = run.raised
     finally:
         red_mod.random = old
     return run
+
+
+def units(c, r):
+    """[(label, sub-case, FifoRun)]: the port under test and the peers of its group, each a case of its own"""
+    out = [('', c, r)]
+    peers = c.get('peers') or []
+    for j, (pc, pr) in enumerate(zip(peers, r.peers)):
+        eid = pc.get('eid', '')
+        same = ', equal to that of the first port' if eid and eid == ('p1' if c['hasid'] else '') else ''
+        twin = ', built from the same configuration as the first' if pc.get('twin') else ''
+        out.append((f'instance {j + 2} of {len(peers) + 1} ports in one Environment (element_id {eid!r}{same}{twin}): ',
+                    dict(pc, cid=f"{c['cid']}.p{j + 1}"), pr))
+    return out
+
+
+def digest(r):
+    """what the property speaks about, for the comparison of two executions of one case"""
+    p = r.dev
+    return {'accepted': [(t, q.packet_id, q.size) for t, q in r.arrivals], 'refused': [(t, q.packet_id) for t, q in r.drops],
+            'departures': [(t, q.packet_id) for t, q in r.departures], 'received': p.packets_received, 'dropped': p.packets_dropped,
+            'samples': [(list(m[0].sizes), list(m[0].sizes_byte)) for m in r.monitors]}
 
 
 # ---- direct oracle (independent of the Lean model) -------------------------------------------------
@@ -403,24 +483,24 @@ def run(ctx):
         j = json.load(open(ctx.replay))
         cases = [j['case']] if j.get('case') else [d['case'] for d in j.get('broken_correspondence', [])]
     else:
-        cases = [gen_case(rng, i) for i in range(500 if ctx.quick else 10000)]
+        cases = [gen_group(rng, i) for i in range(500 if ctx.quick else 10000)]
     krng = random.Random(f'C09-portk-{ctx.seed}')
     kcases = [c for c in cases if c.get('portk')] if ctx.replay else \
         [gen_portk(krng, i) for i in range(300 if ctx.quick else 5000)]
     cases = [c for c in cases if not c.get('portk')]
-    text, impl, runs = [], {}, {}
+    text, runs = [], {}
     for c in cases:
         r = run_impl(c)
         runs[c['cid']] = r
-        impl[c['cid']] = r.obs
-        text.append(header(c)); text += r.acts; text.append('END')
+        for _, uc, ur in units(c, r):
+            text.append(header(uc)); text += ur.acts; text.append('END')
     model = split_cases(run_driver('fifo', '\n'.join(text) + '\n'))
     dis, orc = [], []
     hist = collections.Counter()
     distinct = set(); nontriv = 0; samples = []
     for c in cases:
-        a, b = impl[c['cid']], model.get(c['cid'])
         r = runs[c['cid']]
+        a = r.obs
         for l in r.acts:
             hist[l.split(' ')[0]] += 1
         hist['mode:' + c['mode']] += 1
@@ -428,26 +508,51 @@ def run(ctx):
         if c['mode'] == 'bytes':
             hist['puts_filling_byte_limit_exactly'] += sum(1 for x in r.ledger.puts if x[3] + x[2] == c['qlimit'])
             hist['buffer_sized_packet_at_idle_port'] += sum(1 for x in r.ledger.puts if x[3] == 0 and x[2] == c['qlimit'])
+        if c.get('peers'):
+            hist['cases_with_peer_ports'] += 1
+            hist['peer_ports'] += len(c['peers'])
+            hist['peer_ports:element_id_equal_to_the_first'] += sum(1 for p in c['peers'] if p['eid'] and p['eid'] == ('p1' if c['hasid'] else ''))
+            hist['peer_ports:twin_configuration'] += sum(1 for p in c['peers'] if p.get('twin'))
+            hist['peer_ports:with_monitor'] += sum(1 for p in c['peers'] if p['monitor'])
+            hist['peer_ports:packets_put'] += sum(len(pr.arrivals) + len(pr.drops) for pr in r.peers)
+            hist['peer_ports:drops'] += sum(len(pr.drops) for pr in r.peers)
         key = json.dumps({k: v for k, v in c.items() if k != 'cid'}, sort_keys=True)
         nt = len(r.drops) > 0 or any(x[0] == y[0] for x, y in zip(r.arrivals[1:], r.departures))
         if nt and key not in distinct:
             nontriv += 1
         distinct.add(key)
-        if a != b:
-            i = next((i for i in range(max(len(a), len(b or []))) if i >= len(a) or not b or i >= len(b) or a[i] != b[i]), 0)
-            dis.append({'case': c, 'detail': f'line {i}: impl `{a[i] if i < len(a) else None}` model `{b[i] if b and i < len(b) else None}`',
-                        'impl': a[:300], 'model': (b or [])[:300]})
-        for f in oracle(c, r) + drop_oracle(c, a, r.acts) + red_oracle(c, r):
-            f['case'] = c; f['trace'] = a[:300]
-            orc.append(f)
+        for label, uc, ur in units(c, r):
+            ua, ub = ur.obs, model.get(uc['cid'])
+            if ua != ub:
+                i = next((i for i in range(max(len(ua), len(ub or []))) if i >= len(ua) or not ub or i >= len(ub) or ua[i] != ub[i]), 0)
+                dis.append({'case': c, 'detail': f'{label}line {i}: impl `{ua[i] if i < len(ua) else None}` model `{ub[i] if ub and i < len(ub) else None}`',
+                            'impl': ua[:300], 'model': (ub or [])[:300]})
+            for f in oracle(uc, ur) + drop_oracle(uc, ua, ur.acts) + red_oracle(uc, ur):
+                f['what'] = label + f['what']
+                f['case'] = c; f['trace'] = ua[:300]
+                orc.append(f)
         if len(samples) < 2 and nt:
             samples.append({'config': {k: v for k, v in c.items() if k != 'sources'}, 'sources': c['sources'], 'actions': r.acts[:40]})
+    # the same configurations built again later in this process (fresh Environment): a port's behaviour is a function of its
+    # configuration, its arrivals and (RED) the draws - so what the property speaks about must come out the same
+    again = 0
+    for c in ([] if ctx.replay else cases[:40]):
+        r1, r2 = runs[c['cid']], run_impl(c)
+        again += 1
+        for (label, uc, u1), (_, _, u2) in zip(units(c, r1), units(c, r2)):
+            d1, d2 = digest(u1), digest(u2)
+            if d1 != d2:
+                k = next(k for k in d1 if d1[k] != d2[k])
+                orc.append({'what': f'{label}the same case executed a second time in this process (after {len(cases)} other cases) gives other {k}: '
+                                    f'first {str(d1[k])[:200]}, again {str(d2[k])[:200]}', 'signature': 'port-second-execution-differs',
+                            'case': c, 'trace': u2.obs[:300]})
+                break
     kdis, korc, knt = run_portk(kcases)
     dis += kdis; orc += korc
     cov = {'evaluations': len(cases), 'distinct_nontrivial': nontriv,
-           'rule': 'seeded random port configurations x arrival workloads (1-3 sources, bursts, arrivals at departure instants); non-trivial = distinct case with at least one drop or an arrival at the very instant of a departure',
-           'samples': samples, 'traces_validated_against_impl': len(cases) - len(dis),
-           'action_lines_replayed': sum(len(r.acts) for r in runs.values()), 'operation_histogram': dict(sorted(hist.items())),
+           'rule': 'seeded random port configurations x arrival workloads (1-3 sources, bursts, arrivals at departure instants), in half of the cases next to 1-2 peer ports with their own traffic in the same Environment; non-trivial = distinct case with at least one drop or an arrival at the very instant of a departure',
+           'samples': samples, 'traces_validated_against_impl': len(cases) - len({d['case']['cid'] for d in dis}),
+           'action_lines_replayed': sum(len(ur.acts) for c in cases for _, _, ur in units(c, runs[c['cid']])), 'cases_executed_a_second_time': again, 'operation_histogram': dict(sorted(hist.items())),
            'portk_program_runs': len(kcases), 'portk_runs_with_bursts_or_drops': knt,
            'portk_rule': 'the Port-on-kernel-model program (PortOnK.lean) run by the driver vs the real Port + source process on the real kernel: how run() ended, every out.put (id, env.now bits), final attributes, final clock',
            'translated': _PREP.get('translated', []), 'generated_files_rewritten': _PREP.get('rewritten', []),
